@@ -32,6 +32,14 @@ def gen(rs, tier):
     if tier == "thorough" and rs % 12 == 0:
         P = dict(P, stations=(4, 10), horizon=(20, 80), sessions_cap=24)
     sc = world.gen_world(rs, P)
+    rsb = world.sub(rs, "shared_battery")
+    if rsb.random() < 0.08 and not sc.get("second_life"):
+        pairs_ = [(a_, b_) for a_ in sc["sessions"] for b_ in sc["sessions"] if a_["departure"] <= b_["arrival"] and a_ is not b_]
+        if pairs_:
+            a_, b_ = rsb.choice(pairs_)
+            b_["battery"] = dict(a_["battery"])
+            a_["battery_of"] = b_["battery_of"] = "car-%s" % a_["session_id"]
+            sc.pop("refill", None)     # (an EV object kept outside the simulator cannot share a battery with one inside a reloaded simulator)
     r = world.sub(rs, "dupid")
     if r.random() < 0.1 and len(sc["sessions"]) >= 2:
         # the same vehicle charges twice (ids taken from a vehicle tag): two sessions share a session id, on different stations
